@@ -344,7 +344,28 @@ func c12saveOnce(cfg c12config, fx *c12fixture, memberBits [][]bool, run string,
 	dir := filepath.Join(cfg.tmpDir, fmt.Sprintf("out%d", rep))
 	if rep%2 == 1 && len(c12prevFiles) > 0 {
 		os.MkdirAll(dir, 0o777)
+		blocked := ""
+		if cfg.level == "Detail" && rep%4 == 3 {
+			// one solution's detail file cannot be written (its name is taken by a non-empty directory): the saver logs
+			// that and carries on -- the SUMMARY still lists every solution of the run
+			names := []string{}
+			for name := range c12prevFiles {
+				if !strings.Contains(name, "-Summary.") && !strings.Contains(name, "As-Is") {
+					names = append(names, name)
+				}
+			}
+			sort.Strings(names)
+			if len(names) > 0 {
+				blocked = names[len(names)/2]
+				os.MkdirAll(filepath.Join(dir, blocked), 0o777)
+				os.WriteFile(filepath.Join(dir, blocked, "occupied"), []byte("x"), 0o666)
+				c12stats["save_with_one_detail_file_name_taken"]++
+			}
+		}
 		for name, content := range c12prevFiles {
+			if name == blocked {
+				continue
+			}
 			longer := append(append([]byte{}, content...), content...)
 			os.WriteFile(filepath.Join(dir, name), longer, 0o666)
 		}
